@@ -63,8 +63,15 @@ def main():
             if rc != 0:
                 ok = False; rec["problem"] = "does not build: " + out[-400:]
             if pkgs:
-                rc, out = run(["go", "test", "-count=1", "-vet=off"] + pkgs, wt, timeout=2400)
-                fails = [l for l in out.split("\n") if l.startswith("--- FAIL") or l.startswith("FAIL")]
+                # testscript's TestScripts/pty is timing-sensitive under load: a failing run is repeated
+                # (the suite must pass in one of three attempts; a change that really breaks it fails all)
+                for attempt in range(3):
+                    rc, out = run(["go", "test", "-count=1", "-vet=off"] + pkgs, wt, timeout=2400)
+                    fails = [l for l in out.split("\n") if l.startswith("--- FAIL") or l.startswith("FAIL")]
+                    if not [l for l in fails if "env_var_with_go" not in l and "TestSimple" not in l
+                            and not l.startswith("FAIL\tgithub.com/rogpeppe/go-internal/cmd/testscript")
+                            and not l.startswith("FAIL\tgithub.com/rogpeppe/go-internal/gotooltest") and l.strip() != "FAIL"]:
+                        break
                 # the two tests that already fail offline on the unchanged tree are ignored
                 real = [l for l in fails if "env_var_with_go" not in l and "TestSimple" not in l
                         and not l.startswith("FAIL\tgithub.com/rogpeppe/go-internal/cmd/testscript")
